@@ -81,6 +81,18 @@ def run (args : List String) : String :=
         | some as => "event " ++ resD (subscriberGets (fuelFor (genWFields ts as)) ts et as)
       | _, _ => "bad-op"
     | _, _ => "bad-op"
+  | "gen.burst" :: _ :: _ :: evH :: parH :: n :: toks =>
+    -- n emissions in a row: each one reaches the subscriber (C13: every event of the window, once, in order), each with
+    -- the payload of `subscriberGets`
+    match sigOfHex evH, sigOfHex parH with
+    | some et, some pt =>
+      match fieldsOf pt, parseTVal toks with
+      | some ts, some (pv, []) =>
+        match argsOf pv with
+        | none => "bad-op"
+        | some as => "events " ++ n ++ " " ++ resD (subscriberGets (fuelFor (genWFields ts as)) ts et as)
+      | _, _ => "bad-op"
+    | _, _ => "bad-op"
   | "gen.prop" :: _ :: _ :: valH :: parH :: toks =>
     match sigOfHex valH, sigOfHex parH with
     | some vt, some pt =>
